@@ -279,7 +279,28 @@ pub(crate) fn transport_dial(via: &str, host: &str, d: usize, l: usize, expected
                 }
                 TransportEvent::ConnectionEstablished { peer, endpoint } => {
                     let _ = dialer.reject(endpoint.connection_id());
-                    break format!("{}:{}", if opened { "opened" } else { "established" }, key_name(&peer));
+                    // the address the transport reports for the connection (what the manager will score),
+                    // next to the one that was dialed
+                    let mut parts = endpoint.address().iter();
+                    let mut ep = match parts.next() {
+                        Some(Protocol::Ip4(ip)) if ip == Ipv4Addr::LOCALHOST => "ip4".to_string(),
+                        Some(Protocol::Ip6(ip)) if ip == Ipv6Addr::LOCALHOST => "ip6".to_string(),
+                        Some(Protocol::Dns(name)) if name == "localhost" => "dns".to_string(),
+                        Some(Protocol::Dns4(name)) if name == "localhost" => "dns4".to_string(),
+                        Some(Protocol::Dns6(name)) if name == "localhost" => "dns6".to_string(),
+                        _ => "other".to_string(),
+                    };
+                    match parts.next() {
+                        Some(Protocol::Tcp(p)) if p == port => {}
+                        _ => ep.push_str("!port"),
+                    }
+                    if parts.next().is_some() {
+                        ep.push_str("+more");
+                    }
+                    if endpoint.is_listener() {
+                        ep.push_str("!listener");
+                    }
+                    break format!("{}:{} ep={ep}", if opened { "opened" } else { "established" }, key_name(&peer));
                 }
                 TransportEvent::OpenFailure { errors, .. } => {
                     let mut classes: Vec<&str> = errors.iter().map(|(_, e)| dial_class(e)).collect();
